@@ -94,7 +94,111 @@ def run_shard(shard):
                     check(st, ldoc, ltext, shp, segs, rname, rtext, rdoc, pol)
         if li == lo:
             st.sample({"lhs": ltext, "mergeat": "/a/*", "rhs": "{y: 2}"})
+    if lo == 0:
+        rules_family(st)
     return st
+
+
+def rules_family(st):
+    """Per-path [rules]/[keys] are written against the MERGED document and
+    re-based on the merge point: with --mergeat=/t a rule for /t/x governs
+    the right-hand document's /x (given absolutely, and - equivalently for a
+    root merge - without a merge point)."""
+    lefts = [("m", (("t", ("m", (("x", ("l", (1, 2))), ("k", "v")))),
+                    ("u", 5))),
+             ("m", (("t", ("m", (("x", ("l", (("m", (("id", 1),
+                                                     ("v", "a"))),))),))),
+                    ("x", ("l", (9,)))))]
+    rights = [("m", (("x", ("l", (2, 3))),)),
+              ("m", (("x", ("l", (("m", (("id", 1), ("w", "b"))),
+                                  ("m", (("id", 2), ("w", "c")))))),)),
+              ("m", (("x", ("l", ())), ("k", "new")))]
+    for lspec in lefts:
+        ltext = corpus.render(lspec)
+        ldoc = corpus.load(ltext)
+        for rspec in rights:
+            rtext = corpus.render(rspec)
+            rdoc = corpus.load(rtext)
+            rcanon = corpus.canon(rdoc)
+            for pol in POLS[:3]:
+                for rule in ("left", "right", "unique", "all", "deep"):
+                    for where in ("at-target", "at-root", "target-itself",
+                                  "target-itself-list", "root-itself"):
+                        check_rule(st, ldoc, ltext, rdoc, rtext, rcanon, pol,
+                                   rule, where)
+
+
+def check_rule(st, ldoc, ltext, rdoc, rtext, rcanon, pol, rule, where):
+    from vkit import refmerge as rm
+    st.evaluations += 1
+    is_aoh = rm.is_aoh(dict((rm.keyname(k), v) for k, v in rcanon[1])["x"])
+    if rule == "deep" and not is_aoh and "itself" not in where:
+        return
+    if where == "target-itself-list" and rule == "deep" and not is_aoh:
+        return
+    refrule = ("x",)
+    at = ("t",)
+    if where == "at-target":
+        mergeat, rulepath = "/t", "/t/x"
+        target = corpus.canon(ldoc["t"])
+    elif where == "target-itself":
+        # the rule names the merge point: it governs the right-hand root
+        if rule not in ("left", "right", "deep"):
+            return
+        mergeat, rulepath, refrule = "/t", "/t", ()
+        target = corpus.canon(ldoc["t"])
+    elif where == "target-itself-list":
+        mergeat, rulepath, refrule = "/t/x", "/t/x", ()
+        at = ("t", "x")
+        target = corpus.canon(ldoc["t"]["x"])
+        rdoc = rdoc["x"]          # the case keeps the whole right-hand text
+        rcanon = corpus.canon(rdoc)
+    elif where == "root-itself":
+        if rule not in ("left", "right", "deep"):
+            return
+        mergeat, rulepath, refrule = None, "/", ()
+        target = corpus.canon(ldoc)
+    else:
+        mergeat, rulepath = None, "/x"
+        target = corpus.canon(ldoc)
+    case = {"lhs": ltext, "rhs": rtext, "mergeat": mergeat or "/",
+            "segs": [], "policies": pol, "rules": {rulepath: rule},
+            "where": where}
+    refpol = dict(pol)
+    refpol["rules"] = {refrule: rule}
+    try:
+        sub = rm.merge(target, rcanon, refpol)
+    except rm.MergeError:
+        sub = None
+    except rm.Unspecified:
+        st.extra["unspecified"] += 1
+        return
+    if sub is None:
+        want = None
+    elif mergeat:
+        want = refedit.edited(ldoc, (), {at: sub}, {}, set(),
+                              anchors=False)
+    else:
+        want = sub
+    cfg = mergerun.make_config(pol, mergeat=mergeat,
+                               rules={rulepath: rule})
+    res, data = mergerun.merge(mergerun.fresh(ldoc), mergerun.fresh(rdoc),
+                               cfg)
+    st.transitions += 1
+    st.validated += 1
+    st.states += 1
+    st.outcomes["rule:" + res] += 1
+    st.sig("rule", ltext, rtext, rule, where, pol["hashes"])
+    if res == "crash":
+        st.fail("rule|crash|%s" % data, case, "a merge", data)
+    elif want is None:
+        if res == "ok":
+            st.fail("rule|not-refused", case, "a merge error", "merged")
+    elif res != "ok":
+        st.fail("rule|spurious-%s" % res, case, repr(want)[:300], str(data))
+    elif rm.unordered(corpus.canon(data)) != rm.unordered(want):
+        st.fail("rule|wrong-result|%s|%s" % (where, rule), case,
+                repr(want)[:400], repr(corpus.canon(data))[:400])
 
 
 def model(ldoc, segs, rcanon, pol):
@@ -195,6 +299,15 @@ def replay(case):
     from vkit.props import C01
     st = core.Stats(None)
     rdoc = corpus.load(case["rhs"])
+    if case.get("rules"):
+        (rulepath, rule), = case["rules"].items()
+        check_rule(st, corpus.load(case["lhs"]), case["lhs"], rdoc,
+                   case["rhs"], corpus.canon(rdoc), case["policies"], rule,
+                   case.get("where") or (
+                       "at-target" if case["mergeat"] != "/" else "at-root"))
+        for lst in st.fails.values():
+            return lst[0]
+        return None
     check(st, corpus.load(case["lhs"]), case["lhs"], "?",
           C01.tup(case["segs"]), "?", case["rhs"], rdoc, case["policies"])
     for lst in st.fails.values():
